@@ -123,7 +123,12 @@ def dirk_harness(ns, name, n, with_M, pass_Fx):
             return y
         ns['newton'] = newton_stub
         Fx = (K.dot(x) + g) if pass_Fx else None
-        out = ns['dirk_step'](A, M, Ff, Jf, x, tau, data=None, Fx=Fx)
+        if with_M and name in ('sdirk3_b', 'sdirk21', 'esdirk34') and n == 1:
+            # an earlier, unrelated direct call (other mass matrix, no data dict) must not influence this one
+            M0 = sx.symarray('m0', (n, n))
+            ns['dirk_step'](A, M0, Ff, Jf, x, tau)
+            del stages[:]; del Fcalls[:]
+        out = ns['dirk_step'](A, M, Ff, Jf, x, tau, Fx=Fx) if not pass_Fx else ns['dirk_step'](A, M, Ff, Jf, x, tau, data=None, Fx=Fx)
         Mm = M if with_M else np.array([[1 if i == j else 0 for j in range(n)] for i in range(n)], dtype=object)
         # reconstruct the stage list: explicit first stage (a_11 = 0) is x itself
         ys = []
@@ -331,7 +336,7 @@ def const_driver_harness(ns, maxsteps):
         c.assume(z3.And(tau.t > 0, tend.t > t0.t, (tend.t - t0.t) <= maxsteps * tau.t))
         calls = []
         def stepper(M, Fn, Jn, x, tau_, data, Fx=None):
-            xn = c.fresh('xs'); calls.append((x, tau_, xn)); return xn, None
+            xn = c.fresh('xs'); fn = c.fresh('fs'); calls.append((x, tau_, xn, Fx, fn, data)); return xn, fn
         method = ns['_constant_step_method'](stepper)
         x0 = Sym(z3.Real('x0'))
         times, sols = method(None, None, None, x0, tau, tend, t0=t0)
@@ -342,6 +347,9 @@ def const_driver_harness(ns, maxsteps):
         props.append(lift(sols[0]) == x0.t)
         for i in range(k):
             props += [lift(sols[i + 1]) == calls[i][2].t, lift(calls[i][0]) == lift(sols[i]), lift(calls[i][1]) == tau.t]
+            # cached right-hand side: None for the first step, afterwards exactly what the previous step returned for the state it produced
+            props.append(z3.BoolVal(calls[i][3] is None) if i == 0 else z3.BoolVal(calls[i][3] is calls[i - 1][4]))
+            props.append(z3.BoolVal(isinstance(calls[i][5], dict) and calls[i][5] is calls[0][5]))
         # covers the interval: last time >= t_end, previous < t_end
         props.append(lift(times[-1]) >= tend.t)
         if k >= 1: props.append(lift(times[-2]) < tend.t)
@@ -360,12 +368,13 @@ def adaptive_driver_harness(ns, maxcalls, err_order):
             if len(calls) >= maxcalls:
                 raise sx.PathAbort()         # bound: at most `maxcalls` step attempts are explored
             fail = bool(c.fresh('fail', 'bool'))
-            calls.append({'x': x, 'tau': tau_, 'fail': fail})
+            calls.append({'x': x, 'tau': tau_, 'fail': fail, 'Fx': Fx, 'data': data})
             if fail:
                 raise ns['NoConvergenceError']('newton', 1, x)
             xn = np.array([c.fresh('xn')], dtype=object); xh = np.array([c.fresh('xh')], dtype=object)
-            calls[-1].update(xn=xn, xh=xh)
-            return xn, xh, None
+            fn = np.array([c.fresh('fn')], dtype=object)
+            calls[-1].update(xn=xn, xh=xh, fn=fn)
+            return xn, xh, fn
         method = ns['_adaptive_step_method'](stepper, err_order, None)
         x0 = np.array([Sym(z3.Real('x0'))], dtype=object)
         times, sols = method(None, None, None, x0, tau0, tend, tol, t0=t0, step_factor=sf)
@@ -384,6 +393,15 @@ def adaptive_driver_harness(ns, maxcalls, err_order):
             # the norm argument is the scaled difference (xhat - xnew) / (tol + tol |x|)
             xx = lift(cl['x'][0]); d = tol.t + tol.t * z3.If(xx >= 0, xx, -xx)
             props.append(lift(arg.ravel()[0]) == (lift(cl['xh'][0]) - lift(cl['xn'][0])) / d)
+        # cached right-hand side handed to the stepper belongs to the state handed to it: None while x is the initial value,
+        # otherwise the F(x_new) returned by the accepted attempt that produced x (never that of a rejected attempt)
+        for cl in calls:
+            if cl['x'] is x0:
+                props.append(z3.BoolVal(cl['Fx'] is None))
+            else:
+                src = [o for o in ok_calls if o['xn'] is cl['x']]
+                props.append(z3.BoolVal(len(src) == 1 and cl['Fx'] is src[0]['fn']))
+            props.append(z3.BoolVal(isinstance(cl['data'], dict) and cl['data'] is calls[0]['data']))
         # step size changes by a factor in [0.2, 5] after an attempt, 0.5 after a failed nonlinear solve
         for a, b in zip(calls, calls[1:]):
             ta, tb = lift(a['tau']), lift(b['tau'])
@@ -463,8 +481,12 @@ def main():
                             if 'const integrated exactly' in cex['name'] or 'b_i' in cex['name'] or 'bhat' in cex['name']:
                                 which = 'embedded' if 'bhat' in cex['name'] or 'x_est' in cex['name'] else 'main'
                                 rp = realbuild.run_real(REPLAY_ORDER, {'method': name, 'kind': 'dirk', 'weights': which, 'order': 1}, only=[])
-                                run.report('coeffs_%s:%s' % (name, which), '%s: %s (one real step of y\'=1: error %s)' % (name, cex['name'], rp.get('errors')),
-                                           {'kind': 'order', 'method': name, 'weights': which, 'order': 1, 'family': 'dirk'}, rp['reproduced'])
+                                if rp['reproduced']:
+                                    run.report('coeffs_%s:%s' % (name, which), '%s: %s (one real step of y\'=1: error %s)' % (name, cex['name'], rp.get('errors')),
+                                               {'kind': 'order', 'method': name, 'weights': which, 'order': 1, 'family': 'dirk'}, True)
+                                else:   # the tableau is consistent: the step routine itself combines the stages wrongly (e.g. state shared between calls)
+                                    run.report('dirk_step:%s:%s' % (name, cex['name'][:30]), '%s: %s fails; model %s' % (name, cex['name'], jsonable(sx.model_dict(cex['model']))),
+                                               {'kind': 'stage', 'method': name, 'model': jsonable(sx.model_dict(cex['model']))}, replay_stage(name, 'dirk'))
                             else:
                                 run.report('dirk_step:%s:%s' % (name, cex['name'][:30]), '%s: %s fails; model %s' % (name, cex['name'], jsonable(sx.model_dict(cex['model']))),
                                            {'kind': 'stage', 'method': name, 'model': jsonable(sx.model_dict(cex['model']))}, replay_stage(name, 'dirk'))
@@ -540,6 +562,16 @@ if w['family'] == 'dirk':
     c = getattr(solvers, 'coeffs_' + name)() if hasattr(solvers, 'coeffs_' + name) else np.array([[0, 0], [.5, .5], [.5, .5]])
     A = np.asarray(c[0] if isinstance(c, tuple) else c, dtype=float); s = A.shape[1]
     out = solvers.dirk_step(A, M, Ff, Jf, x.copy(), tau)
+    # same step in the other admissible calling forms: explicit data=None, and after an unrelated earlier direct call with a
+    # different mass matrix (no data dict passed, so nothing may be shared between the calls)
+    try:
+        out_none = solvers.dirk_step(A, M, Ff, Jf, x.copy(), tau, data=None)
+        M0 = 3.0 * np.eye(n) + rng.rand(n, n)
+        solvers.dirk_step(A, M0, Ff, Jf, x.copy(), tau)
+        out_second = solvers.dirk_step(A, M, Ff, Jf, x.copy(), tau)
+        variants = [out_none, out_second]
+    except Exception as e:
+        variants = None
     # exact stage oracle: solve the full linear stage system
     S = np.zeros((s * n, s * n)); rhs = np.zeros(s * n)
     for i in range(s):
@@ -550,6 +582,11 @@ if w['family'] == 'dirk':
     Y = np.linalg.solve(S, rhs).reshape(s, n)
     xn = np.linalg.solve(M, M @ x + tau * sum(A[s, i] * Ff(Y[i]) for i in range(s)))
     bad = not np.allclose(out[0], xn, rtol=1e-5, atol=1e-7)
+    if variants is None: bad = True
+    else:
+        for v in variants:
+            for a, b_ in zip(v[:-1], out[:-1]):
+                if not np.allclose(a, b_, rtol=1e-9, atol=1e-12): bad = True
 else:
     A, Gamma, b, b_hat, eo = getattr(solvers, 'coeffs_' + name)()
     out = solvers.rosenbrock_step(A, Gamma, b, b_hat, M, Ff, Jf, x.copy(), tau, dict())
